@@ -15,9 +15,12 @@ for sp in specs:
     if only and sp['id']!=only: continue
     p=os.path.join(W,sp['file'])
     orig=open(p).read()
-    if sp['old'] not in orig:
+    edits=[(sp['old'],sp['new'])]+[(e['old'],e['new']) for e in sp.get('more',[])]
+    if any(o not in orig for o,_ in edits):
         print('STALE', sp['id'], sp['name']); bad+=1; continue
-    s=orig.replace(sp['old'],sp['new'],sp.get('count',1))
+    s=orig
+    for o,n in edits:
+        s=s.replace(o,n,sp.get('count',1))
     open(p,'w').write(s)
     d=subprocess.run(['git','-C',W,'diff'],capture_output=True,text=True).stdout
     os.makedirs(f"/verif/mutants/{sp['id']}",exist_ok=True)
